@@ -68,16 +68,17 @@ theorem access_order (mw : S_ratelimitmw_Middleware) (ri : Option S_agd_RequestI
 
 /-- Calls that process, answer or account a request. -/
 def laterStages : List String :=
-  ["handleDeviceResult", "processLocationErr", "ContextWithRequestInfo", "serveWithRatelimiting"]
+  ["handleDeviceResult", "serveDeviceErr", "serveLocationErr", "ContextWithRequestInfo", "serveWithRatelimiting"]
 
 /-- When the access check rejects the request, the handler returns no error, and neither the device
-result, nor a malformed-ECS answer, nor the rest of the pipeline is reached; the request-info object is
+result (nor `serveDeviceErr`), nor a malformed-ECS answer (`serveLocationErr`; both names since the C09 repair,
+which sends these two answers through the rate limiter), nor the rest of the pipeline is reached; the request-info object is
 given back to its pool exactly once, as the last effect.  (Hypotheses: a usable peer port and a
 request info, as `newRequestInfo` always returns one.) -/
 theorem blocked_reaches_nothing (mw : S_ratelimitmw_Middleware) (u1 u3 : Unit) (port : Int)
     (loc : Option S_geoip_Location × Option S_dnsmsg_ECS × Option String) (ri : S_agd_RequestInfo)
-    (dev : Bool × Option String) (le : Option String) (cx : AbsPtr) (next : Option String) (hp : port ≠ 0) :
-    ∃ tr, Wrap_handler mw u1 port u3 loc (some ri) true dev le cx next = some (none, tr) ∧
+    (dev : Bool × Option String) (de le : Option String) (cx : AbsPtr) (next : Option String) (hp : port ≠ 0) :
+    ∃ tr, Wrap_handler mw u1 port u3 loc (some ri) true dev de le cx next = some (none, tr) ∧
       (∀ s ∈ laterStages, s ∉ names tr) ∧ (names tr).count "Put" = 1 ∧ (names tr).getLast? = some "Put" := by
   simp [Wrap_handler, hp, names, laterStages]
 
@@ -85,34 +86,34 @@ theorem blocked_reaches_nothing (mw : S_ratelimitmw_Middleware) (u1 u3 : Unit) (
 far as the device result or the malformed-ECS answer, `isBlockedByAccess` has been called earlier. -/
 theorem access_checked_first (mw : S_ratelimitmw_Middleware) (u1 u3 : Unit) (port : Int)
     (loc : Option S_geoip_Location × Option S_dnsmsg_ECS × Option String) (ri : S_agd_RequestInfo)
-    (blocked : Bool) (dev : Bool × Option String) (le : Option String) (cx : AbsPtr) (next : Option String)
+    (blocked : Bool) (dev : Bool × Option String) (de le : Option String) (cx : AbsPtr) (next : Option String)
     (r : Option String) (tr : List (String × List String))
-    (h : Wrap_handler mw u1 port u3 loc (some ri) blocked dev le cx next = some (r, tr)) (s : String)
+    (h : Wrap_handler mw u1 port u3 loc (some ri) blocked dev de le cx next = some (r, tr)) (s : String)
     (hs : s ∈ laterStages) (hin : s ∈ names tr) :
     ∃ pre post, names tr = pre ++ "isBlockedByAccess" :: post ∧ s ∉ pre := by
   by_cases hp : port = 0
   · simp [Wrap_handler, hp] at h
     obtain ⟨_, rfl⟩ := h
     simp [laterStages, names] at hs hin
-    rcases hs with rfl | rfl | rfl | rfl <;> simp at hin
+    rcases hs with rfl | rfl | rfl | rfl | rfl <;> simp at hin
   · refine ⟨["location", "newRequestInfo"], (names tr).drop 3, ?_, ?_⟩
     · cases blocked <;> cases hc : dev.1 <;> cases hl : loc.2.2 <;>
         simp [Wrap_handler, hp, hc, hl] at h <;> obtain ⟨_, rfl⟩ := h <;> simp [names]
     · simp [laterStages] at hs
-      rcases hs with rfl | rfl | rfl | rfl <;> simp
+      rcases hs with rfl | rfl | rfl | rfl | rfl <;> simp
 
 /-- A request that nothing rejects is processed: the device result is handled and, if it lets the
 request continue and the ECS option was fine, the rest of the pipeline runs. -/
 theorem unblocked_is_processed (mw : S_ratelimitmw_Middleware) (u1 u3 : Unit) (port : Int)
     (l : Option S_geoip_Location) (e : Option S_dnsmsg_ECS) (ri : S_agd_RequestInfo)
-    (le : Option String) (cx : AbsPtr) (next : Option String) (hp : port ≠ 0) :
-    ∃ tr, Wrap_handler mw u1 port u3 (l, e, none) (some ri) false (true, none) le cx next = some (next, tr) ∧
+    (de le : Option String) (cx : AbsPtr) (next : Option String) (hp : port ≠ 0) :
+    ∃ tr, Wrap_handler mw u1 port u3 (l, e, none) (some ri) false (true, none) de le cx next = some (next, tr) ∧
       "serveWithRatelimiting" ∈ names tr := by
   simp [Wrap_handler, hp, names]
 
 /-- Non-vacuity of the handler theorems: a concrete run in which the access check rejects the request. -/
 example (mw : S_ratelimitmw_Middleware) (ri : S_agd_RequestInfo) :
-    (Wrap_handler mw () 53 () (none, none, none) (some ri) true (true, none) none true none).map (·.1) = some none := by
+    (Wrap_handler mw () 53 () (none, none, none) (some ri) true (true, none) none none true none).map (·.1) = some none := by
   simp [Wrap_handler]
 
 /-! ## Where the profile's access object comes from (third deepening)
